@@ -270,9 +270,9 @@ def run(rep):
             "independence, not the equality of results.")
 
 
-def readbytes_rule(rep):
+def readbytes_rule(rep, rid="C04.d", select=None):
     f = core.library_facts()
-    rep.rule("C04.d", "short reads are tolerated structurally: the value returned by every BinInputStream::readBytes call in the "
+    rep.rule(rid, "short reads are tolerated structurally: the value returned by every BinInputStream::readBytes call in the "
              "library is kept (assigned, initialises a local, or returned), never discarded; where a read is issued behind "
              "carried-over bytes (destination offset by a count) the consumer is handed result + carry")
     n = 0
@@ -281,6 +281,8 @@ def readbytes_rule(rep):
         if c[1].split("::")[-1] != "readBytes":
             continue
         fn = x["_fn"]
+        if select and not select(fn):
+            continue
         if fn.get("cls", "").endswith("InputStream") and fn["name"] == "readBytes":
             # forwarding implementations
             pass
@@ -293,7 +295,7 @@ def readbytes_rule(rep):
             if y["k"] == "ret" and guard.mentions(y["x"], lambda s: s == c):
                 kept = True
         n += 1
-        rep.ob("C04.d", "%s@readBytes:%d" % (fn["q"], n), kept,
+        rep.ob(rid, "%s@readBytes:%d" % (fn["q"], n), kept,
                "result kept as the number of valid bytes" if kept else "%s discards the number of bytes actually read (line %d)" % (fn["q"], x["l"]),
                "%s:%d" % (fn["file"], x["l"]))
         # carry
@@ -311,8 +313,8 @@ def readbytes_rule(rep):
                     e = y.get("rhs") if y["k"] == "asg" else y.get("init")
                     if e and e[0] == "b" and e[1] == "+" and ({sx_str(e[2]), sx_str(e[3])} >= {sx_str(carry)}):
                         ok = True
-            rep.ob("C04.d/carry", "%s@readBytes:%d" % (fn["q"], n), ok,
+            rep.ob(rid + "/carry", "%s@readBytes:%d" % (fn["q"], n), ok,
                    "bytes carried over (%s) are added to the count read" % sx_str(carry) if ok else
                    "reads behind %s carried-over bytes but never adds them to the number of valid bytes" % sx_str(carry),
                    "%s:%d" % (fn["file"], x["l"]))
-    rep.floor("C04.d", n, 3)
+    rep.floor(rid, n, 3 if select is None else 1)
